@@ -1,13 +1,13 @@
 #!/bin/bash
 # Re-runs every kept seeded change (seeded/<id>/<name>/patch.diff) through its property's quick check in a scratch
 # worktree (tools/seeded.py check) and reports which are still caught.  Usage: tools/seeded_regress.sh [ID ...]
-#   PAR=<n> parallel jobs (default 3).  Output: .work/seeded_regress.tsv  (<id> <name> caught|MISSED|ERROR)
+#   PAR=<n> parallel jobs (default 3).  Output: .work/seeded_regress.<pid>.tsv  (<id> <name> caught|MISSED|ERROR)
 cd "$(dirname "$0")/.." || exit 2
 PAR=${PAR:-3}
 ids="$*"
 [ -z "$ids" ] && ids=$(ls seeded | grep '^C[0-9][0-9]$')
 mkdir -p .work
-out=.work/seeded_regress.tsv
+out=.work/seeded_regress.$$.tsv     # one file per invocation (several may run at once)
 : > "$out"
 one() {
   d=$1
@@ -19,5 +19,5 @@ one() {
   else echo -e "$id\t$name\tERROR"; fi
 }
 export -f one
-for id in $ids; do ls -d seeded/$id/*/ 2>/dev/null; done | sed 's:/$::' | xargs -P "$PAR" -I{} bash -c 'one {}' | tee -a "$out"
+for id in $ids; do ls -d seeded/$id/*/ 2>/dev/null; done | sed 's:/$::' | xargs -P "$PAR" -I{} bash -c 'one {}' | tee "$out"
 echo "caught: $(grep -c 'caught$' "$out")  missed: $(grep -c 'MISSED$' "$out")  other: $(grep -cv 'caught$\|MISSED$' "$out")"
